@@ -512,7 +512,8 @@ func isBlank(e ast.Expr) bool {
 	return e == nil || (ok && id.Name == "_")
 }
 
-// rewriteRange: for K, V := range M {B}  =>  { m := M; for _, k := range simhook.SortedKeys(m) { K := k; V := m[k]; B } }
+// rewriteRange: for K, V := range M {B}  =>  { m := M; for _, k := range simhook.RangeKeys(site, m) { K := k; V := m[k]; B } }
+// (the keys come sorted and are then permuted by the run's seeded scheduler: map iteration order is one more scheduling choice)
 func (c *ctx) rewriteRange(rs *ast.RangeStmt) ast.Stmt {
 	c.counts["range_sorted"]++
 	c.used = true
@@ -537,7 +538,7 @@ func (c *ctx) rewriteRange(rs *ast.RangeStmt) ast.Stmt {
 		}
 	}
 	body := &ast.BlockStmt{List: append(pre, rs.Body.List...)}
-	loop := &ast.RangeStmt{Key: ast.NewIdent("_"), Value: kv, Tok: token.DEFINE, X: hookCall("SortedKeys", mv), Body: body}
+	loop := &ast.RangeStmt{Key: ast.NewIdent("_"), Value: kv, Tok: token.DEFINE, X: hookCall("RangeKeys", strLit(c.site("range")), mv), Body: body}
 	return &ast.BlockStmt{List: []ast.Stmt{
 		&ast.AssignStmt{Lhs: []ast.Expr{mv}, Tok: token.DEFINE, Rhs: []ast.Expr{rs.X}},
 		loop,
